@@ -26,7 +26,7 @@ MODES = {
     'C11': ['bnd_doc', 'bnd_tables'],
     'C12': ['bnd_c12'],
     'C13': ['bnd_c13', 'c13_minwrap'],
-    'C14': ['bnd_c14', 'c14_hardwrap'],
+    'C14': ['bnd_c14', 'c14_hardwrap', 'c14_elements'],
     'C15': ['bnd_c15'],
     'C16': ['bnd_doc', 'c16_prefix', 'c16_affix', 'c16_trivial'],
     'C18': ['bnd_c18'],
@@ -51,6 +51,7 @@ LEGACY_BOUND = {
     'c14_hardwrap': '3 documents x widths 3..=8: an id whose first word is hard-wrapped still yields exactly one fragment marker',
 }
 STANDS_FOR = {
+    'c14_elements': 'process_dom_node (id / name extraction for every element kind), insert_child, and the marker paths through word buffer, pending list and sub-renderers',
     'c03_elements': 'process_dom_node: which element becomes which render node (lists and definition lists with stray children, table sections, captions, form controls, foreign elements), and the table / list constructors that filter their children',
     'c13_minwrap': 'calc_size_estimate (Text arm: min_width = min(len, min_wrap_width) per text NODE) with width_minus: the two smallest documents showing finding D21',
     'bnd_c04': 'add_inline_text / add_text / flush_word / flush_word_hard_wrap as composed by do_render_node over text nodes and inline elements, against a reference greedy wrapper',
